@@ -1,19 +1,47 @@
 (* C10 — Opening and immediately closing a position is never profitable.  Statements only.
 
-   FULL STATEMENT (not proved in full, see c10_*_partial and notes/C10.md):
-     forall states, prices (index min <= max), sizes, collateral tokens, sides, fee and impact settings with
-     max_positive_position_impact_factor <= max_negative_position_impact_factor:
-       increase (empty position) = Ok (p1, m1, ir) -> decrease p1 m1 (same prices, no elapsed time) = Ok (_, _, dr) ->
-       dr_remove dr -> value_out ... ir dr <= collateral_in * price + slack          (Corr.round_trip_ok)
-   What is proved below, for all inputs: the two mechanisms the property names, i.e. every term of the
-   accounting  value_out <= collateral_in*p - fees + pnl + impact_close  except the summation through the
-   collateral waterfall and the round-trip inequality of the uncapped impact function (C03):
-     (1) tokens round against the trader, so pnl(close) <= impact(open);
-     (2) the impact of the close is capped: -|size|*max_neg/unit <= impact <= min(pool*price, |size|*max_pos/unit),
-         and the part of a negative impact beyond the cap is exactly the claimable price_impact_diff.
-   The complete inequality is checked by the oracle on every round trip the driver executes on the real code. *)
-From GV Require Import lib.Base C01.Model PS.Model PS.Actions PS.Hist C11.Proofs C10.Proofs C10.Corr.
+   MAIN THEOREM c10_open_close_no_profit (all states, prices, sizes, sides, collateral tokens, fee and impact
+   settings, virtual inventories): if max_positive_position_impact_factor <= max_negative_position_impact_factor,
+   an increase of an empty position followed by its full close at the same prices with no fee-state update in
+   between hands out (output + secondary output + claimable funding + claimable collateral for the user, valued
+   at the collateral token's min / the pnl token's max price) at most
+       collateral_in * min price + 4 base units of the pnl token + 1 USD unit,
+   which is exactly the inequality Corr.round_trip_ok evaluates on the real code.  The four base units are the
+   four payments of the collateral waterfall that may each convert a remainder into pnl tokens rounding up; the
+   USD unit is the rounding of the two impact values.
+   The theorems ..._partial below are the two mechanisms the property names, kept as separate statements. *)
+From GV Require Import lib.Base C01.Model PS.Model PS.Actions PS.Hist C11.Proofs C10.Proofs C10.Impact C10.Corr C10.RoundTrip.
 Open Scope Z_scope.
+
+(* 0. THE PROPERTY.  Hypotheses: the position is empty; amounts are non-negative (unsigned in the code); the three
+      prices are positive with min <= max (store oracle validation, C24); pools are non-negative (unsigned);
+      the positive impact cap does not exceed the negative one (the complement is the known finding below). *)
+Theorem c10_open_close_no_profit : forall w, 1 <= w -> forall unit, 0 < unit ->
+  forall p m pr ci sd acc p1 m1 ir sd' acc' cw fl p2 m2 dr,
+  size_usd p = 0 -> coll p = 0 -> 0 <= ci -> 0 <= sd ->
+  prices_nonneg pr -> price_ordered (p_index pr) ->
+  0 < pmin (coll_price pr (coll_long p)) <= pmax (coll_price pr (coll_long p)) ->
+  0 < pmin (coll_price pr (is_long p)) <= pmax (coll_price pr (is_long p)) ->
+  pnl_market_nonneg m1 -> 0 <= pl (m_impact m) -> 0 <= pl (m_impact m1) ->
+  ip_ok (c_impact (m_cfg m)) ->
+  0 <= pp_max_pos_impact (c_pos (m_cfg m)) <= pp_max_neg_impact (c_pos (m_cfg m)) ->
+  increase w unit p m pr ci sd acc = Ok (p1, m1, ir) ->
+  decrease w unit p1 m1 pr sd' acc' cw fl = Ok (p2, m2, dr) -> dr_remove dr = true ->
+  value_out (coll_long p1) (is_long p1) pr ir dr <= ci * pmin (coll_price pr (coll_long p1)) + slack (is_long p1) pr.
+Proof.
+  intros w Hw unit Hu p m pr ci sd acc p1 m1 ir sd' acc' cw fl p2 m2 dr H1 H2 H3 H4 H5 H6 H7 H8 H9 H10 H11 H12 H13 Hi Hd Hr.
+  pose proof (open_close_no_profit w Hw unit Hu _ _ _ _ _ _ _ _ _ _ _ _ _ _ _ _ H1 H2 H3 H4 H5 H6 H7 H8 H9 H10 H11 H12 H13 Hi Hd Hr) as T.
+  pose proof (C07.Proofs.increase_effect w Hw unit _ _ _ _ _ _ _ _ _ Hi) as (L & C & _).
+  unfold slack. rewrite L, C in *. lia.
+Qed.
+
+(* the uncapped impact function alone: opening then reverting the same delta never gains more than one unit *)
+Theorem c10_impact_round_trip : forall w, 1 <= w -> forall unit, 0 < unit -> forall cl cs dl ds ip i1 c1 i2 c2,
+  ip_ok ip -> 0 <= cl < 2 ^ w -> 0 <= cs < 2 ^ w ->
+  pool_delta_impact w unit cl cs dl ds ip = Ok (i1, c1) ->
+  pool_delta_impact w unit (cl + dl) (cs + ds) (- dl) (- ds) ip = Ok (i2, c2) ->
+  i1 + i2 <= 1.
+Proof. intros w Hw unit Hu. exact (impact_round_trip w Hw unit Hu). Qed.
 
 (* 1. mechanism "size delta in tokens rounds against the trader (long: down on open, up on close)":
       the total pnl of a freshly opened position at the same prices is at most the impact value of the open *)
